@@ -150,6 +150,23 @@ func randSend(rnd *common.Rand, big bool) (bool, uint16, []sop) {
 	return acked, bs, ops
 }
 
+// RunWaits runs the scenarios in which a caller blocks on the stream (Read
+// woken by data / close, stale signal, Close failing at each step): C06 uses
+// them as its in-band bytestream instance.
+func RunWaits(r *common.Run) {
+	r.Mark("case ibb-wake 0")
+	runWake(r, false)
+	r.Mark("case ibb-wake 1")
+	runWake(r, true)
+	r.Mark("case ibb-wake 2")
+	runStale(r)
+	for i, f := range []string{"none", "flush", "send", "reply", "deadline"} {
+		r.Mark("case ibb-close-fail %d", i)
+		runCloseFail(r, f, false)
+		runCloseFail(r, f, true)
+	}
+}
+
 // Run is the C15 runner.
 func Run(r *common.Run) error {
 	if r.Replay != "" {
